@@ -54,7 +54,7 @@ def accepts (p : Prof) : SetOp → Bool
   | .certRef s => match p with
     | .p1 => isEan13 s || isEan13p5 s
     | .p2 => isEan13p5 s
-  | .sw none => true
+  | .sw none => (match p with | .p1 => true | .p2 => false)
   | .sw (some l) => l.all compOK
   | .nonce b => hashOK b
   | .instId b => b.length == 33 && b.head? == some 1
